@@ -128,6 +128,11 @@ class _EvalInterp(Interp):
         return Interp._binop(self, node, op, a, b)
 
     def eval(self, e, env):
+        if isinstance(e, ast.Subscript) and isinstance(e.ctx, ast.Load):
+            base = self.eval(e.value, env)
+            if isinstance(base, Tm):
+                return Tm("[]", base, self.eval(e.slice, env))
+            # (evaluated once more below: operands here are pure)
         if isinstance(e, ast.UnaryOp) and not isinstance(e.op, ast.Not):
             v = self.eval(e.operand, env)
             if isinstance(v, Tm):
@@ -157,6 +162,18 @@ class _EvalInterp(Interp):
             raise AnalysisError("comparison of computed values: "
                                 + ast.unparse(node))
         return Interp.compare(self, node, op, a, b)
+
+
+def _isinstance_tm(it, nd, a, k):
+    """a computed value is no expression node, and of no class the handler
+    could name"""
+    if isinstance(a[0], Tm):
+        return False
+    from .absint import default_isinstance
+    r = default_isinstance(a[0], a[1])
+    if r is None:
+        raise AnalysisError(f"isinstance(..., {a[1]!r})")
+    return r
 
 
 def _fold(sym, items, start=None):
@@ -218,6 +235,8 @@ def handler_value(model, cls: ClassInfo, name, glob):
 
 
 def _module_attrs(it, node, base, attr):
+    if isinstance(base, Tm):
+        return Tm(".", base, attr)
     if isinstance(base, Opaque) and "operator" in base.what and \
             attr in _OPERATOR_MODULE:
         sym = _OPERATOR_MODULE[attr]
@@ -331,6 +350,14 @@ def cases_for(kind, sym, fields, kw_names=()):
                             {fields[0]: c, fields[1]: th, fields[2]: el},
                             [c, th, el], (th if t else el).value,
                             [c, th if t else el]))
+    elif kind == "getitem":
+        a, b = Child(fields[0]), Child(fields[1])
+        out.append(Case("", {fields[0]: a, fields[1]: b}, [a, b],
+                        Tm("[]", a.value, b.value), [a, b]))
+    elif kind == "getattr":
+        a = Child(fields[0])
+        out.append(Case("", {fields[0]: a, fields[1]: "attr_name"}, [a],
+                        Tm(".", a.value, "attr_name"), [a]))
     elif kind == "compare":
         for o_ in _CMP:
             a, b = Child(fields[0]), Child(fields[1])
@@ -456,7 +483,8 @@ def judge(model, ev: ClassInfo, node_name, handler_name, kind, sym, fields,
             "pytools.product": prod_, "math.prod": prod_, "prod": prod_,
             "reduce": reduce_, "functools.reduce": reduce_,
             "max": minmax("max"), "min": minmax("min"),
-            "bool": lambda it_, nd, a, k: it_.truth(nd, a[0])},
+            "bool": lambda it_, nd, a, k: it_.truth(nd, a[0]),
+            "isinstance": _isinstance_tm},
             attrs=_module_attrs, resolve=resolve, globals_=glob_c,
             max_steps=20000)
         # handlers made in the class body, as bound values of the mapper
